@@ -51,6 +51,15 @@ def gen(seed, tier):
         pl["stack_objectives"] = objs
         pl["mixed_directions"] = True
     sp = pl.get("sprout")
+    if sp and "generator" in sp and len(pl["levels"]) == 3 and seed % 6 == 4:
+        # a user generator that lists the parents most promising first / shuffled: parents of different levels are
+        # interleaved in the candidate dict
+        sp["generator"] = {"kind": "promising_first"}
+        sp["deme_filters"] = [f for f in sp["deme_filters"] if f["kind"] not in ("nbc_far_enough", "deme_limit")]
+        for f in sp["deme_filters"]:
+            if f["kind"] == "far_enough":
+                f["min_distance"] = min(f["min_distance"], 0.02 * min(h - l for l, h in pl["box"]))
+        pl["options"].pop("hibernation", None)
     if sp and sp.get("factory") == "nbc" and seed % 2 == 0:
         sp["positional"] = True
     if sp and "generator" in sp and seed % 5 == 2:
